@@ -179,7 +179,7 @@ func VerifyFunc(pr *Prog, eff *Effects, fi *FuncInfo, opts VerifyOpts) (rep *Fun
 		case SSlice:
 			st.assume(Or(Eq(SArr(v), IntLit(0)), Sel(x.initial(arrAllocKey, ArrSort(SInt, SBool)), SArr(v))))
 		}
-		if x.nn && v.Sort == SRef && isPtrToStruct(p.Type()) {
+		if x.nn && v.Sort == SRef && (isPtrToStruct(p.Type()) || isMapType(p.Type())) {
 			st.assume(Not(Eq(v, TNull))) // A11: pointer parameters are non-nil (asserted at call sites that are not inlined)
 		}
 		if i == 0 && sig.Recv() != nil && v.Sort == SRef {
